@@ -12,10 +12,10 @@ m=re.search(r'cargo test[^()\n;&|]*', c)
 print(m.group(0).strip().rstrip('.,'))")
 log=$out/$x.confirm.log; : > $log
 git apply $out/$x.patch.diff || { echo "$prop-$x: PATCH DOES NOT APPLY"; exit 1; }
-mkdir -p tests; cp $out/$x.demo.rs tests/demo_$x.rs
 echo "## pinned suite with change" >> $log
 timeout 900 cargo test --workspace --no-fail-fast --offline >> $log 2>&1; suite=$?
 pinned=$(grep -c "test result: ok. 30 passed" $log)
+mkdir -p tests; cp $out/$x.demo.rs tests/demo_$x.rs
 echo "## demo with change: $cmd" >> $log
 timeout 600 bash -c "$cmd" >> $log 2>&1; with=$?
 git apply -R $out/$x.patch.diff
